@@ -661,3 +661,11 @@ func (r *Report) include(newPrefix, oldPrefix, why string, check func(*World, *R
 		r.FuncsSeen[f] = true
 	}
 }
+
+// withPkgHelpersOf: like withPkgHelpers, but tolerant of a nil function (an anchor that no longer resolves).
+func (w *World) withPkgHelpersOf(fn *ssa.Function) []*ssa.Function {
+	if fn == nil {
+		return nil
+	}
+	return w.withPkgHelpers(fn)
+}
